@@ -243,6 +243,16 @@ class ClassInfo:
         self.registrars = {}      # method -> [(kind, template over its positional parameters)]
         self.gs = None            # parsed own __getstate__: dict(resets, drops, live, from_super)
         self.lambda_priors = set()   # names of priors registered with a lambda / local function as closure
+        self.writers = {}         # attr -> {(method, writer kind)}: who writes it outside __init__
+        self.reads = {}           # method -> {attr}: `self.<attr>` loads (all methods, `__init__` included)
+        self.dyn_reads = set()    # methods with a computed read (`getattr(self, <expr>)`, `vars(self)`, `self.__dict__[<expr>]`)
+        self.members = set()      # methods, properties and class-level attributes (code, not instance state)
+        self.settings_reads = {}  # method -> {settings class}: global settings consulted
+        self.settings_stores = set()   # (attr, setting, in_init): `self.<attr> = <expression mentioning a setting>`
+
+
+    def own_reads_all(self):
+        return set().union(*[r for m, r in self.reads.items() if m != "__init__"]) if self.reads else set()
 
 
 class Translator:
@@ -383,6 +393,16 @@ class Translator:
                         ci.memo.add(nm.value)
                     elif isinstance(d, ast.Name) and d.id == "cached":
                         ci.memo.add(n.name)
+        for n in bodies:        # class-level names: code / constants of the class, not instance state
+            if isinstance(n, ast.Assign):
+                for t in n.targets:
+                    for e in ([t] if isinstance(t, ast.Name) else t.elts if isinstance(t, (ast.Tuple, ast.List)) else []):
+                        if isinstance(e, ast.Name):
+                            ci.members.add(e.id)
+            elif isinstance(n, ast.AnnAssign) and isinstance(n.target, ast.Name):
+                ci.members.add(n.target.id)
+            elif isinstance(n, (ast.FunctionDef, ast.AsyncFunctionDef, ast.ClassDef)):
+                ci.members.add(n.name)
         for mname, fns in ci.methods.items():
             for fn in fns:
                 self.scan_method(ci, mname, fn)
@@ -397,6 +417,9 @@ class Translator:
             return
         S = fn.args.args[0].arg
         in_init = mname == "__init__"
+        fkind = self.writer_kind(mname, fn)
+        self.scan_reads(ci, mname, fn, S)
+        self.scan_settings(ci, mname, fn, S, in_init)
         # loop variables over constant tuples/lists -> alternatives
         env = {}
         for n in ast.walk(fn):
@@ -434,6 +457,7 @@ class Translator:
                 ci.init_attrs.add(name)
             else:
                 ci.mut_attrs.add(name)
+                ci.writers.setdefault(name, set()).add((mname, fkind))
 
         def target(t, value):
             if isinstance(t, ast.Attribute):
@@ -524,9 +548,11 @@ class Translator:
                         ci.memo.add(q)
                     if not in_init:
                         ci.mut_attrs.add("_memoize_cache")
+                        ci.writers.setdefault("_memoize_cache", set()).add((mname, fkind))
                 elif isinstance(f, ast.Name) and f.id == "clear_cache_hook" and n.args and _is_self(n.args[0], S):
                     if not in_init:
                         ci.mut_attrs.add("_memoize_cache")
+                        ci.writers.setdefault("_memoize_cache", set()).add((mname, fkind))
                 elif isinstance(f, ast.Name) and n.args and _is_self(n.args[0], S):
                     r = self.pkg.resolve_name(ci.file, f.id)
                     hk = None
@@ -551,6 +577,151 @@ class Translator:
             pass
         if any(True for _ in ci.memo):
             ci.mut_attrs.add("_memoize_cache")
+            if any(isinstance(d, ast.Call) and isinstance(d.func, ast.Name) and d.func.id == "cached" or
+                   isinstance(d, ast.Name) and d.id == "cached" for d in fn.decorator_list):
+                ci.writers.setdefault("_memoize_cache", set()).add((mname, fkind))
+
+    # ------------------------------------------------------------------ writer kinds, reads, settings
+    WRITER_KINDS = ("setter", "getter", "deleter", "method", "setstate")
+
+    @staticmethod
+    def writer_kind(mname, fn):
+        """Who is writing: a property setter (public configuration API), a property getter / deleter, `__setstate__`
+        (constructor-like: installs a copied state), or an ordinary method."""
+        for d in fn.decorator_list:
+            if isinstance(d, ast.Attribute) and d.attr in ("setter", "getter", "deleter"):
+                return d.attr
+        for d in fn.decorator_list:
+            if isinstance(d, ast.Name) and d.id in ("property", "abstractproperty", "cached_property"):
+                return "getter"
+        if mname == "__setstate__":
+            return "setstate"
+        return "method"
+
+    def scan_reads(self, ci, mname, fn, S):
+        """`self.<attr>` loads of one method (nested functions / lambdas / comprehensions included): attribute loads,
+        augmented assignments, `getattr/hasattr(self, "const")`, `self.__dict__["const"]` / `.get("const")`.  A computed
+        name (`getattr(self, expr)`, `vars(self)`, `self.__dict__[expr]`) marks the method as a dynamic reader."""
+        reads = ci.reads.setdefault(mname, set())
+
+        def mangle(a):
+            if a.startswith("__") and not a.endswith("__"):
+                return "_" + ci.name.lstrip("_") + a
+            return a
+
+        def is_dict(e):
+            return isinstance(e, ast.Attribute) and e.attr == "__dict__" and _is_self(e.value, S)
+        for n in ast.walk(fn):
+            if isinstance(n, ast.Attribute) and _is_self(n.value, S) and isinstance(n.ctx, ast.Load):
+                reads.add(mangle(n.attr))
+            elif isinstance(n, ast.AugAssign) and isinstance(n.target, ast.Attribute) and _is_self(n.target.value, S):
+                reads.add(mangle(n.target.attr))
+            elif isinstance(n, ast.Call) and isinstance(n.func, ast.Name) and n.func.id in ("getattr", "hasattr") \
+                    and n.args and _is_self(n.args[0], S):
+                if len(n.args) > 1 and isinstance(n.args[1], ast.Constant) and isinstance(n.args[1].value, str):
+                    reads.add(n.args[1].value)
+                else:
+                    ci.dyn_reads.add(mname)
+            elif isinstance(n, ast.Call) and isinstance(n.func, ast.Name) and n.func.id in ("vars", "dir") \
+                    and n.args and _is_self(n.args[0], S):
+                ci.dyn_reads.add(mname)
+            elif isinstance(n, ast.Call) and isinstance(n.func, ast.Attribute) and n.func.attr in ("__getattr__", "__getattribute__"):
+                ci.dyn_reads.add(mname)        # super().__getattr__(name)
+            elif isinstance(n, ast.Subscript) and is_dict(n.value) and isinstance(n.ctx, ast.Load):
+                if isinstance(n.slice, ast.Constant) and isinstance(n.slice.value, str):
+                    reads.add(n.slice.value)
+                else:
+                    ci.dyn_reads.add(mname)
+            elif isinstance(n, ast.Call) and isinstance(n.func, ast.Attribute) and is_dict(n.func.value):
+                if n.func.attr in ("get", "pop", "setdefault") and n.args and isinstance(n.args[0], ast.Constant) \
+                        and isinstance(n.args[0].value, str):
+                    reads.add(n.args[0].value)
+                elif n.func.attr not in ("update", "clear"):
+                    ci.dyn_reads.add(mname)        # .copy(), .items(), .get(expr) …
+
+    def setting_of(self, file, node):
+        """Name of the global settings class that the expression `node` (a Name / Attribute chain) denotes or is rooted
+        in (`settings.cholesky_jitter.value` -> `cholesky_jitter`), else None."""
+        chain, n = [], node
+        while isinstance(n, ast.Attribute):
+            chain.append(n.attr)
+            n = n.value
+        if not isinstance(n, ast.Name):
+            return None
+        chain.reverse()
+        try:
+            r = self.pkg.resolve_name(file, n.id)
+        except TranslateError:
+            return None
+        if r is None:
+            return None
+        sfiles = ("settings.py", "beta_features.py")
+        if r[0] == "mod" and os.path.basename(r[1]) in sfiles and os.path.dirname(r[1]) == self.pkg.root:
+            return chain[0] if chain else None
+        if r[0] == "cls" and os.path.basename(r[1]) in sfiles and os.path.dirname(r[1]) == self.pkg.root:
+            return r[2]
+        if r[0] == "ext" and "linear_operator.settings" in r[1]:
+            rest = r[1].split("linear_operator.settings", 1)[1].strip(".")
+            return rest.split(".")[0] if rest else (chain[0] if chain else None)
+        return None
+
+    def scan_settings(self, ci, mname, fn, S, in_init):
+        """Which global settings a method consults, and which `self.<attr>` it assigns from an expression that
+        mentions one (directly or through a local variable assigned from such an expression)."""
+        def mentioned(e, tainted):
+            out = set()
+            for x in ast.walk(e):
+                if isinstance(x, (ast.Attribute, ast.Name)):
+                    s_ = self.setting_of(ci.file, x)
+                    if s_ is not None:
+                        out.add(s_)
+                    if isinstance(x, ast.Name) and x.id in tainted:
+                        out |= tainted[x.id]
+            return out
+        used = mentioned(fn, {})
+        if used:
+            ci.settings_reads.setdefault(mname, set()).update(used)
+        else:
+            return
+        tainted = {}
+        for _ in range(3):      # locals assigned from a settings read carry it (small fixed point)
+            for n in ast.walk(fn):
+                if isinstance(n, (ast.Assign, ast.AnnAssign, ast.AugAssign)) and getattr(n, "value", None) is not None:
+                    src = mentioned(n.value, tainted)
+                    if not src:
+                        continue
+                    tgts = n.targets if isinstance(n, ast.Assign) else [n.target]
+                    for t in tgts:
+                        for e in ([t] if not isinstance(t, (ast.Tuple, ast.List)) else t.elts):
+                            if isinstance(e, ast.Name):
+                                tainted.setdefault(e.id, set()).update(src)
+                            elif isinstance(e, ast.Attribute) and _is_self(e.value, S):
+                                for s_ in src:
+                                    ci.settings_stores.add((e.attr, s_, in_init))
+                elif isinstance(n, ast.Call) and isinstance(n.func, ast.Name) and n.func.id == "setattr" and len(n.args) == 3 \
+                        and _is_self(n.args[0], S):
+                    src = mentioned(n.args[2], tainted)
+                    if src and isinstance(n.args[1], ast.Constant):
+                        for s_ in src:
+                            ci.settings_stores.add((str(n.args[1].value), s_, in_init))
+
+    def light_scan(self, key):
+        """members and `self.<attr>` reads of a non-Module mix-in class"""
+        ci = self.info[key]
+        for d in [ci.cd] + self.pkg.alts.get(key, []):
+            for n in d.body:
+                if isinstance(n, ast.Assign):
+                    for t in n.targets:
+                        if isinstance(t, ast.Name):
+                            ci.members.add(t.id)
+                elif isinstance(n, ast.AnnAssign) and isinstance(n.target, ast.Name):
+                    ci.members.add(n.target.id)
+                elif isinstance(n, (ast.FunctionDef, ast.AsyncFunctionDef, ast.ClassDef)):
+                    ci.members.add(n.name)
+                    if isinstance(n, ast.FunctionDef) and n.args.args and not any(
+                            isinstance(x, ast.Name) and x.id in ("staticmethod", "classmethod") for x in n.decorator_list):
+                        self.scan_reads(ci, n.name, n, n.args.args[0].arg)
+        return ci
 
     def scan_getstate(self, ci, fn):
         """Vocabulary:  `self.X = None`* ; (`return self.__dict__`  |  `S = <copy of self.__dict__ or of
@@ -759,7 +930,34 @@ class Translator:
             self.scan_class(k)
         for k in self.keys:
             self.scan_registrar_calls(k)
+        # mix-in classes of the package that are not nn.Modules themselves (`_PyroMixin`, `GP`-side ABCs …): their
+        # methods run on the Module instance, so their members and `self.<attr>` reads count as the Module class's own
+        self._light = {}
+        for k in self.keys:
+            for b in self.mro(k):
+                if not self.info[b].is_module and b not in self._light:
+                    self._light[b] = self.light_scan(b)
         self.scan_facts()
+        # every global setting that any code of the package (Module class or not: prediction strategies, distributions,
+        # lazy tensors, functions) consults — the settings phase of the correspondence must exercise each of them
+        self.settings_anywhere = set()
+        for f, t in self.pkg.trees.items():
+            if os.path.dirname(f) == self.pkg.root and os.path.basename(f) in ("settings.py", "beta_features.py", "__init__.py"):
+                continue
+            for x in ast.walk(t):
+                if isinstance(x, (ast.Attribute, ast.Name)):
+                    s_ = self.setting_of(f, x)
+                    if s_ is not None and not s_.startswith("_") or s_ == "_linalg_dtype_cholesky":
+                        self.settings_anywhere.add(s_)
+        # read side: own `self.<attr>` loads outside the constructor (mix-ins folded in)
+        for k in self.keys:
+            ci = self.info[k]
+            mixins = [self.info[b] for m_ in ci.bases if not self.info[m_].is_module for b in self.mro(m_)
+                      if not self.info[b].is_module]
+            ci.mixins = mixins
+            ci.own_reads = ci.own_reads_all().union(*[m_.own_reads_all() for m_ in mixins])
+            ci.members = ci.members.union(*[m_.members for m_ in mixins])
+            ci.dyn_reads = ci.dyn_reads.union(*[m_.dyn_reads for m_ in mixins])
         # effective tables
         for k in self.keys:
             ci = self.info[k]
@@ -800,6 +998,10 @@ class Translator:
                         break
             ci.eff_drops = drops
             ci.gp = any(self.pkg.rel(c.file) == "gpytorch/module.py" and c.name == "Module" for c in chain)
+            ci.writers = {a: w for a, w in ci.writers.items() if a in ci.mut_attrs}
+            # read side: own `self.<attr>` loads outside the constructor; which registered patterns cover them
+            ci.covers = {(q, a) for c in chain for a in c.own_reads for q in regnames
+                         if ("*" in q or "#" in q) and q != "*" and a != q and _match(q, a)}
         self.foreign = {a for a in self.foreign if not (a.startswith("__") and a.endswith("__"))}
         return self
 
@@ -815,6 +1017,8 @@ class Translator:
             ci = self.info[k]
             allnames |= {q for _, q, _ in ci.regs} | ci.init_attrs | ci.mut_attrs | ci.persisted_writes | ci.memo \
                 | ci.clears | ci.eff_clears | ci.eff_mut | ci.eff_drops | ci.lambda_priors
+            allnames |= ci.own_reads | ci.members | ci.dyn_reads | {m for w in ci.writers.values() for m, _ in w} \
+                | {a for a, _, _ in ci.settings_stores}
         owned = set()
         for k in keys:
             owned |= self.info[k].init_attrs | self.info[k].mut_attrs
@@ -831,6 +1035,7 @@ class Translator:
 
         def q(s):
             return '"' + s.replace("\\", "\\\\").replace('"', '\\"') + '"'
+        b_ = lambda x: "true" if x else "false"   # noqa: E731
         out = ["/- GENERATED by harness/translate/g2_persistence.py from the working tree — do not edit. -/",
                "import GPVerif.Model.Persist", "", "namespace Gen.Persistence", "open _root_.Persist", ""]
         out.append("def names : List String := [" + ", ".join(q(n) for n in names) + "]")
@@ -859,6 +1064,37 @@ class Translator:
         out.append("def classes : List ClassRow := [\n" + ",\n".join(rows) + "]\n")
         out.append("/-- attribute names of Module classes that are also written from outside the owning object -/")
         out.append("def foreignWrites : List Nat := " + L(nid[a] for a in foreign) + "\n")
+        # ---- writers / settings / reads (wave 3)
+        wk = {k_: i for i, k_ in enumerate(self.WRITER_KINDS)}
+        out.append("def writerKindNames : List String := [" + ", ".join(q(h) for h in self.WRITER_KINDS) + "]")
+        out.append("/-- who writes a plain attribute outside `__init__`: `(class, attribute, method, writer kind)` -/")
+        wr = sorted((cid[k], nid[a], nid[m], wk[kd]) for k in keys for a, w in self.info[k].writers.items() for m, kd in w)
+        out.append("def attrWriters : List (Nat × Nat × Nat × Nat) := [" + ", ".join(f"({a}, {b}, {c}, {d})" for a, b, c, d in wr) + "]\n")
+        settings = sorted({s_ for k in keys for ss in self.info[k].settings_reads.values() for s_ in ss}
+                          | {s_ for k in keys for _, s_, _ in self.info[k].settings_stores} | self.settings_anywhere)
+        sid = {s_: i for i, s_ in enumerate(settings)}
+        out.append("def settingNames : List String := [" + ", ".join(q(h) for h in settings) + "]")
+        out.append("/-- global settings consulted by methods other than `__init__` of Module classes: `(class, setting)` -/")
+        sr = sorted({(cid[k], sid[s_]) for k in keys for m, ss in self.info[k].settings_reads.items() if m != "__init__" for s_ in ss})
+        out.append("def settingsReads : List (Nat × Nat) := [" + ", ".join(f"({a}, {b})" for a, b in sr) + "]")
+        out.append("/-- every global setting consulted anywhere in the package outside settings.py (Module class or not) -/")
+        out.append("def settingsReadAnywhere : List Nat := " + L(sorted(sid[s_] for s_ in self.settings_anywhere)))
+        out.append("/-- `self.<attr> = <expression that mentions a global setting>` (directly or through a local):\n"
+                   "`(class, attribute, setting, in __init__)` -/")
+        st = sorted({(cid[k], nid[a], sid[s_], ini) for k in keys for a, s_, ini in self.info[k].settings_stores})
+        out.append("def settingsStores : List (Nat × Nat × Nat × Bool) := [" +
+                   ", ".join(f"({a}, {b}, {c}, {b_(d)})" for a, b, c, d in st) + "]\n")
+        out.append("/-- `self.<attr>` loads in the class's OWN methods other than `__init__` (attribute loads, augmented\n"
+                   "assignments, `getattr/hasattr(self, \"c\")`, `self.__dict__[\"c\"]`), indexed by class id -/")
+        out.append("def ownReads : List (List Nat) := [\n" + ",\n".join("  " + L(sorted(nid[a] for a in self.info[k].own_reads)) for k in keys) + "]\n")
+        out.append("/-- methods, properties and class-level names of the class (code, not instance state), by class id -/")
+        out.append("def ownMembers : List (List Nat) := [\n" + ",\n".join("  " + L(sorted(nid[a] for a in self.info[k].members)) for k in keys) + "]\n")
+        out.append("/-- `(registered name pattern, concrete read name)` pairs the translator matched (`grid_#` ~ `grid_0`) -/")
+        cv = sorted({(nid[q_], nid[a]) for k in keys for q_, a in self.info[k].covers})
+        out.append("def covers : List (Nat × Nat) := [" + ", ".join(f"({a}, {b})" for a, b in cv) + "]")
+        out.append("/-- methods that read `self` under a COMPUTED name (`getattr(self, e)`, `vars(self)`, `self.__dict__[e]`): `(class, method)` -/")
+        dr = sorted((cid[k], nid[m]) for k in keys for m in self.info[k].dyn_reads)
+        out.append("def dynReads : List (Nat × Nat) := [" + ", ".join(f"({a}, {b})" for a, b in dr) + "]\n")
         F = self.facts
         b = lambda x: "true" if x else "false"
         out.append("/-- `Module._load_from_state_dict` calls `self._clear_cache()` unconditionally, then delegates to torch -/")
@@ -882,6 +1118,10 @@ class Translator:
                 out.append(f"abbrev aid_STAR : Nat := {nid[n]}")
         for h in hooks:
             out.append(f"abbrev hid_{h} : Nat := {hid[h]}")
+        for s_ in settings:
+            out.append(f"abbrev sid_{_ident(s_)} : Nat := {sid[s_]}")
+        for i, k_ in enumerate(self.WRITER_KINDS):
+            out.append(f"abbrev wk_{k_} : Nat := {i}")
         out.append("\nend Gen.Persistence")
         self.nid, self.cid_of, self.names = nid, cid, names
         return "\n".join(out) + "\n"
@@ -911,6 +1151,13 @@ class Translator:
                 # some class of the MRO derives from a class outside the package that is not an nn.Module
                 # (torch.distributions …): its instances carry attributes the translator cannot see
                 "foreign_base": any(any(e not in NN_ROOTS for e in self.info[b].ext_bases) for b in self.mro(k)),
+                # read side (own methods; the harness unites them over the MRO)
+                "reads": {m: sorted(set(r).union(*[x.reads.get(m, set()) for x in ci.mixins]))
+                          for m, r in list(ci.reads.items()) + [(m, set()) for x in ci.mixins for m in x.reads]},
+                "dyn_reads": sorted(ci.dyn_reads), "members": sorted(ci.members),
+                "writers": {a: sorted(w) for a, w in ci.writers.items()},
+                "settings_reads": {m: sorted(r) for m, r in ci.settings_reads.items()},
+                "settings_stores": sorted(ci.settings_stores),
             }
         return res
 
